@@ -9,6 +9,8 @@ import ol
 ASSUME = [
     "configurations fsauth_basic / fsauth_stealth: authenticated filesystem services, driven with the faults up to Tor's answer to the "
     "SETCONF only (config, bind, reject, disconnect while the command is outstanding)",
+    "noise 'fail' also places, between the announcement of our upload and its confirmation, another service's refused upload and a failed "
+    "fetch of that service's descriptor at the very directory our upload went to (a shared directory); they decide nothing",
     "noise 'fetchfail': HS_DESC FAILED events for this service's own address that report a failed descriptor *fetch* (REASON=NOT_FOUND, "
     "a directory no upload was announced to) arrive while the creation command is outstanding and during the wait; they decide nothing",
     "endpoint configurations: ephemeral v3 / v2 with a supplied key / single-hop / with local_port=, filesystem with explicit and implicit "
